@@ -1,0 +1,5 @@
+// SPDX-License-Identifier: MIT OR Apache-2.0
+
+//! Verification hook: re-export of the module-private backoff for the external verification
+//! harness. Compiled only with `--cfg p2panda_p2panda_verif`.
+pub use super::backoff::Backoff;
